@@ -13,6 +13,7 @@ def I40 (v : U64) : Int := (v.setWidth 40).toInt
 def U40 (v : U64) : Nat := v.toNat % 2 ^ 40
 /-- The representation invariant of accumulators: bits 40–63 repeat bit 39. -/
 def AccWF (v : U64) : Prop := signExtend 40 v = v
+instance (v : U64) : Decidable (AccWF v) := inferInstanceAs (Decidable (_ = _))
 /-- Two's-complement wrap to 40 bits. -/
 def wrap40 (i : Int) : Int := i.bmod (2 ^ 40)
 
@@ -172,5 +173,124 @@ theorem addSub_overflow (a b : U64) (sub : Bool) :
       rw [← Bool.decide_or, decide_eq_decide]; omega]
     rw [h]
     cases (a.setWidth 40).msb <;> cases (b.setWidth 40).msb <;> cases (a.setWidth 40 - b.setWidth 40).msb <;> rfl
+
+
+/-! ## flags (`SetAccFlag`) and saturation (`SaturateAcc`) -/
+
+private theorem beq_zero_toNat (v : U64) : (v == 0) = decide (v.toNat = 0) := by
+  by_cases he : v = 0
+  · subst he; rfl
+  · have : v.toNat ≠ 0 := fun hh => he (BitVec.eq_of_toNat_eq (by simpa using hh))
+    have h1 : (v == 0) = false := by simpa using he
+    rw [h1]; simp [this]
+
+private theorem bne_toNat (v w : U64) : (v != w) = decide (v.toNat ≠ w.toNat) := by
+  by_cases he : v = w
+  · subst he; simp
+  · have : v.toNat ≠ w.toNat := fun hh => he (BitVec.eq_of_toNat_eq hh)
+    have h1 : (v != w) = true := by simpa using he
+    rw [h1]; simp [this]
+
+private theorem shr39_ne_zero (v : U64) : ((v >>> 39) != 0) = decide (2 ^ 39 ≤ v.toNat) := by
+  rw [bne_toNat, BitVec.toNat_ushiftRight, Nat.shiftRight_eq_div_pow, decide_eq_decide]
+  show v.toNat / 2 ^ 39 ≠ 0 ↔ _
+  omega
+
+private theorem signExtend32_toNat (v : U64) : (signExtend 32 v).toNat =
+      v.toNat % 2 ^ 32 + if 2 ^ 31 ≤ v.toNat % 2 ^ 32 then 2 ^ 64 - 2 ^ 32 else 0 := by
+  unfold signExtend
+  rw [BitVec.toNat_signExtend, BitVec.toNat_setWidth, BitVec.toNat_setWidth, BitVec.msb_eq_decide,
+    BitVec.toNat_setWidth]
+  have : v.toNat % 2 ^ 32 % 2 ^ 64 = v.toNat % 2 ^ 32 := by omega
+  rw [this]
+  by_cases hh : 2 ^ 31 ≤ v.toNat % 2 ^ 32
+  · simp only [show (32 - 1) = 31 from rfl, hh, decide_true, if_true]
+  · simp only [show (32 - 1) = 31 from rfl, hh, decide_false, Bool.false_eq_true, if_false]
+
+/-- A well-formed accumulator is either a small non-negative number or a 64-bit pattern with all
+of bits 39–63 set; its signed 40-bit value is then its 64-bit two's-complement value. -/
+theorem wf_toNat_cases (v : U64) (h : AccWF v) :
+    (v.toNat < 2 ^ 39 ∧ I40 v = v.toNat) ∨
+    (2 ^ 64 - 2 ^ 39 ≤ v.toNat ∧ I40 v = (v.toNat : Int) - 2 ^ 64) := by
+  unfold AccWF signExtend at h
+  unfold I40
+  have hn := congrArg BitVec.toNat h
+  rw [BitVec.toNat_signExtend, BitVec.toNat_setWidth, BitVec.toNat_setWidth, BitVec.msb_eq_decide,
+    BitVec.toNat_setWidth] at hn
+  have hlt := v.isLt
+  rw [BitVec.toInt_eq_toNat_cond, BitVec.toNat_setWidth]
+  simp only [show (40 - 1) = 39 from rfl] at hn
+  by_cases hm : 2 ^ 39 ≤ v.toNat % 2 ^ 40
+  · simp only [hm, decide_true, if_true] at hn
+    right; omega
+  · simp only [hm, decide_false, Bool.false_eq_true, if_false] at hn
+    left; omega
+
+private theorem signExtend32_ne_iff (v : U64) (h : AccWF v) :
+    (v != signExtend 32 v) = decide (I40 v < -2 ^ 31 ∨ 2 ^ 31 ≤ I40 v) := by
+  have hc := wf_toNat_cases v h
+  have hlt := v.isLt
+  rw [bne_toNat, signExtend32_toNat, decide_eq_decide]
+  rcases hc with ⟨h1, h2⟩ | ⟨h1, h2⟩ <;> split <;> omega
+
+private theorem neg_iff (v : U64) (h : AccWF v) : ((v >>> 39) != 0) = decide (I40 v < 0) := by
+  have hc := wf_toNat_cases v h
+  have hlt := v.isLt
+  rw [shr39_ne_zero, decide_eq_decide]
+  rcases hc with ⟨h1, h2⟩ | ⟨h1, h2⟩ <;> omega
+
+private theorem bit_val (v : U64) (k : Nat) :
+    ((v >>> k) &&& (1 : U64)) = if v.getLsbD k then 1 else 0 := by
+  apply BitVec.eq_of_toNat_eq
+  have h1 : ((v >>> k) &&& 1).toNat = (v.toNat >>> k) % 2 := by
+    rw [BitVec.toNat_and, BitVec.toNat_ushiftRight]
+    show _ &&& (2 ^ 1 - 1) = _
+    rw [Nat.and_two_pow_sub_one_eq_mod]
+  rw [h1]
+  unfold BitVec.getLsbD
+  rw [Nat.testBit, Nat.one_and_eq_mod_two]
+  generalize BitVec.toNat v >>> k = n
+  rcases Nat.mod_two_eq_zero_or_one n with h | h <;> simp [h]
+
+/-- **Flags.**  Zero, minus, extension and normalized flags are exactly those of the 40-bit value:
+`fz ⇔ v = 0`, `fm ⇔ v < 0`, `fe ⇔ v` does not fit 32 bits signed,
+`fn ⇔ fz ∨ (¬fe ∧ bit31 ≠ bit30)`. -/
+theorem accFlags_spec (v : U64) (h : AccWF v) :
+    (accFlags v).fz = b2u (decide (I40 v = 0)) ∧ (accFlags v).fm = b2u (decide (I40 v < 0)) ∧
+    (accFlags v).fe = b2u (decide (I40 v < -2 ^ 31 ∨ 2 ^ 31 ≤ I40 v)) ∧
+    (accFlags v).fn = b2u (decide (I40 v = 0) || (!decide (I40 v < -2 ^ 31 ∨ 2 ^ 31 ≤ I40 v) &&
+                (v.getLsbD 31 != v.getLsbD 30))) := by
+  have hc := wf_toNat_cases v h
+  have hlt := v.isLt
+  have hz : (v == 0) = decide (I40 v = 0) := by
+    rw [beq_zero_toNat, decide_eq_decide]
+    rcases hc with ⟨h1, h2⟩ | ⟨h1, h2⟩ <;> omega
+  have hx : (((v >>> 31) &&& (1 : U64)) ^^^ ((v >>> 30) &&& (1 : U64)) != 0) =
+      (v.getLsbD 31 != v.getLsbD 30) := by
+    rw [bit_val, bit_val]
+    cases v.getLsbD 31 <;> cases v.getLsbD 30 <;> decide
+  unfold accFlags
+  simp only [hz, neg_iff v h, signExtend32_ne_iff v h, hx, and_self]
+
+/-- **Saturation.**  A value that does not fit 32 bits is replaced by the nearest 32-bit bound (and
+the caller sets the limit flag exactly then); a value that fits is unchanged. -/
+theorem saturate_spec (v : U64) (h : AccWF v) :
+    I40 (saturate v).1 = max (-2 ^ 31) (min (2 ^ 31 - 1) (I40 v)) ∧
+    (saturate v).2 = decide (I40 v < -2 ^ 31 ∨ 2 ^ 31 ≤ I40 v) ∧ AccWF (saturate v).1 := by
+  unfold saturate
+  rw [signExtend32_ne_iff v h, neg_iff v h]
+  by_cases hf : I40 v < -2 ^ 31 ∨ 2 ^ 31 ≤ I40 v
+  · simp only [hf, decide_true, if_true]
+    by_cases hn : I40 v < 0
+    · simp only [hn, decide_true, if_true]
+      refine ⟨?_, trivial, by decide⟩
+      have : I40 (0xFFFFFFFF80000000 : U64) = -2 ^ 31 := by decide
+      rw [this]; omega
+    · simp only [hn, decide_false, Bool.false_eq_true, if_false]
+      refine ⟨?_, trivial, by decide⟩
+      have : I40 (0x000000007FFFFFFF : U64) = 2 ^ 31 - 1 := by decide
+      rw [this]; omega
+  · simp only [hf, decide_false, Bool.false_eq_true, if_false]
+    exact ⟨by omega, trivial, h⟩
 
 end Teakra.Alu
